@@ -32,7 +32,8 @@ RULE = ('2-4 real clients on the real built-in bus; 1-2 exporters with generated
 STATE_MEASURE = 'distinct (clients, proxy kind, calls in flight, outcome kind) tuples'
 PROBES = ['proxy-introspected', 'proxy-explicit', 'proxy-by-name', 'three-calls-in-flight',
           'two-callers-one-exporter', 'remote-error-mirrored', 'call-to-second-exporter',
-          'same-serial-two-clients', 'exporter-calls-itself-through-bus', 'big-endian-foreign-call']
+          'same-serial-two-clients', 'exporter-calls-itself-through-bus', 'big-endian-foreign-call', 'implementation-answers-later',
+          'late-answers-out-of-order']
 COMPONENTS = {
     'real': ['txdbus.bus.Bus / BusProtocol (routing, Hello, RequestName)', 'BusAuthenticator + '
              'mechanisms', 'txdbus.client.DBusClientConnection x 2-4', 'txdbus.objects (proxies, '
@@ -69,6 +70,7 @@ def scenario(ctx):
     exporters = clients[:nexp]
     ctx.config.update(clients=nclients, exporters=nexp)
     sched = Scheduler(ctx)
+    late = []             # (exporter, fire function) of Deferreds returned by implementations
     current = {}          # exporter name -> (sender, serial) being processed
     invocations = {}      # (exporter name, sender unique, serial) -> rec
     services = []
@@ -82,9 +84,24 @@ def scenario(ctx):
             if key in invocations:
                 raise Violation('C11/invoked-twice', 'same call', 'call %r invoked twice' % (key,))
             invocations[key] = rec
-            k = ds.weighted([6, 1.5, 1])
+            k = ds.weighted([6, 1.5, 1, 2])
             so = mspec.sig_out
             n = objgen.nargs(so)
+            if k == 3:
+                # the implementation answers later: the scheduler fires the Deferred, possibly
+                # after other calls were dispatched and answered
+                from twisted.internet import defer
+                d = defer.Deferred()
+                ref, txv = gen.tx_body(ds, so)
+                if ds.flag(0.75):
+                    rec['out'] = ('value', ref)
+                    val = None if n == 0 else (txv[0] if n == 1 else tuple(txv))
+                    late.append((e, lambda d=d, val=val: d.callback(val)))
+                else:
+                    rec['out'] = ('raise', AppError, 'late')
+                    late.append((e, lambda d=d: d.errback(AppError('late'))))
+                sim.probe('implementation-answers-later')
+                return d
             if k == 0:
                 ref, txv = gen.tx_body(ds, so)
                 rec['out'] = ('value', ref)
@@ -222,7 +239,15 @@ def scenario(ctx):
                     budget[0] -= 1
                     issue(ready[ds.choose(len(ready))])
                 ops.append(('call', op))
-        return {'op': ops}
+        fires = []
+        for i, (exp, fn) in enumerate(late):
+            def fire(i=i, exp=exp, fn=fn):
+                late.pop(i)
+                if i:
+                    sim.probe('late-answers-out-of-order')
+                rig.call(exp, fn)
+            fires.append(('late%d' % i, fire))
+        return {'op': ops, 'fire': fires}
 
     def invariant():
         check_no_exceptions(sim, 'C11')
@@ -257,7 +282,7 @@ def scenario(ctx):
         sim.step = 0
         sched.run(400, extra, invariant)
         budget[0] = 0
-        ok = sched.drain(800, None, invariant)
+        ok = sched.drain(800, extra, invariant)
         if not ok:
             raise Violation('C11/liveness', 'no quiescence', 'drain did not reach quiescence')
         # ---- oracle for this round --------------------------------------------------
